@@ -53,6 +53,11 @@ FOREIGN_LEAVES = (
     ("collections", "Counter", "empty"),
     ("torch", "load", None),  # resolved only, never called
     ("torch.hub", "load", None),
+    # protocol-4 qualified names: only the exact dotted name may be looked up in the allowlist
+    ("collections", "OrderedDict.fromkeys", None),
+    ("argparse", "Namespace.__init__", None),
+    ("torch", "Size.__new__", None),
+    ("collections", "OrderedDict.__init__.__globals__", None),
 )
 LOADERS = ("pickle.loads", "_pickle.loads", "pickle.load+BytesIO", "torch._load_from_bytes")
 LOADER_GLOBALS = {
@@ -87,7 +92,8 @@ def _args(kind):
 
 
 def leaf_pickle(globs):
-    out = b"("
+    # qualified (dotted) names are only resolvable at protocol >= 4
+    out = (b"\x80\x04" if any("." in n for _m, n, _k in globs) else b"") + b"("
     for m, n, kind in globs:
         out += f"c{m}\n{n}\n".encode()
         if kind is not None:
